@@ -111,14 +111,16 @@ def scan_forbidden(mods):
 
 
 def run_translators(names):
-    rep = {}
-    ok = True
+    """regenerate *all* Gen files (a stale file from an earlier run on a different tree must never survive);
+    ok = the generators this property depends on succeeded"""
+    rc, out, err = sh([sys.executable, os.path.join(VERIF, 'tools', 'rs2lean.py'), 'all', '--repo', REPO])
+    try:
+        allrep = json.loads(out)
+    except Exception:
+        allrep = {}
+    rep, ok = {}, True
     for n in names:
-        rc, out, err = sh([sys.executable, os.path.join(VERIF, 'tools', 'rs2lean.py'), n, '--repo', REPO])
-        try:
-            r = json.loads(out)[n]
-        except Exception:
-            r = {'ok': False, 'error': (out + err)[-400:]}
+        r = allrep.get(n, {'ok': False, 'error': (out + err)[-400:]})
         rep[n] = r
         ok = ok and r.get('ok', False)
     return ok, rep
@@ -254,6 +256,24 @@ def minimise(prop, bins, case, still_fails, budget=150):
 
 
 # ------------------------------------------------------------------------------------------------
+def known_for(mod, known, case, verdict_lines):
+    """ids of the open known findings that explain *every* SPECFAIL line of the case, or None if some line is not
+    explained (then the case is a new violation). `mod.signatures` maps each SPECFAIL line to a canonical signature."""
+    if not hasattr(mod, 'signatures'):
+        return None
+    lines = [l for l in verdict_lines if l.startswith('SPECFAIL')]
+    sigs = mod.signatures(case, lines)
+    if sigs is None or len(sigs) != len(lines):
+        return None
+    ids = set()
+    for sg in sigs:
+        kf = next((k for k in known if sg is not None and k.get('signature') == sg), None)
+        if kf is None:
+            return None
+        ids.add(kf['id'])
+    return sorted(ids)
+
+
 def load_known(prop):
     p = os.path.join(VERIF, 'known_findings.json')
     if not os.path.exists(p):
@@ -305,9 +325,8 @@ def run_check(mod, tier, seed, replay=None):
 
     with BuildLock():
         # 1. translators
-        gen_report = {}
+        ok, gen_report = run_translators(getattr(mod, 'TRANSLATORS', []))
         if getattr(mod, 'TRANSLATORS', None):
-            ok, gen_report = run_translators(mod.TRANSLATORS)
             if not ok:
                 bad = {k: v.get('error') for k, v in gen_report.items() if not v.get('ok')}
                 obligation_failure = (None, f'translator failed closed: {bad}')
@@ -383,10 +402,10 @@ def run_check(mod, tier, seed, replay=None):
     mism_cases = [i for i, v in verdicts.items() if any(l.startswith('MISMATCH') for l in v) and i not in spec_cases]
     known_hit, new_spec = collections.Counter(), []
     for i in sorted(spec_cases):
-        sig = mod.signature(cases[i], verdicts[i]) if hasattr(mod, 'signature') else None
-        kf = next((k for k in known if sig is not None and k.get('signature') == sig), None)
-        if kf:
-            known_hit[kf['id']] += 1
+        kfs = known_for(mod, known, cases[i], verdicts[i])
+        if kfs is not None:
+            for kid in kfs:
+                known_hit[kid] += 1
         else:
             new_spec.append(i)
     for k in known:
@@ -418,8 +437,7 @@ def run_check(mod, tier, seed, replay=None):
             trace_lines += n2
             for j in sorted(v2):
                 if any(l.startswith('SPECFAIL') for l in v2[j]):
-                    sig = mod.signature(extra[j], v2[j]) if hasattr(mod, 'signature') else None
-                    if not any(sig is not None and k.get('signature') == sig for k in known):
+                    if known_for(mod, known, extra[j], v2[j]) is None:
                         found = (extra[j], v2[j])
                         break
             cases_searched = len(extra)
